@@ -6,8 +6,9 @@ From Coq Require Import NArith List Bool.
 Import ListNotations.
 Local Open Scope N_scope.
 
-(* the arguments of one Channel API call, including the constructor arguments of
-   AddressRange::try_from(start, count) and WriteMultiple::from(start, values) *)
+(* the arguments of one Channel API call: for reads the RAW fields (start, count) of the
+   AddressRange handed to Channel::read_* (public fields: any pair in u16 x u16, validated or
+   not); for write-multiple the arguments of WriteMultiple::from(start, values) *)
 Inductive call :=
 | CReadCoils (start count : N)
 | CReadDiscreteInputs (start count : N)
